@@ -10,6 +10,6 @@ PROPERTIES = {
         "and Behavior._start; executeInGuard restores evaluatingGuard on every exit",
         note="blocks and conditions are scripted objects exploring every behaviour up to the stated bound",
         assumptions=["L-iterators: generator objects follow the send/StopIteration protocol"],
-        not_reached=["sub-behaviours under an abandoned block are stopped by generator finalisation (garbage collector) -- outside the encoding", "compiler: visit_Break/Continue/Return/Abort, makeGuardCheckers, generateInvocation", "DynamicScenario._prepare/_start guard checks"],
+        not_reached=["WHEN an abandoned block's generator is finalised (reference counting / garbage collector) is outside the encoding; WHAT happens when it is closed is covered (Behavior._invokeInner, close modelled at the suspension point)", "compiler: visit_Abort, makeGuardCheckers, generateInvocation", "DynamicScenario._prepare/_start guard checks"],
     )
 }
